@@ -41,6 +41,7 @@ def image_of(fn, claims_fn=None, width_map=None):
     img["thr"] = 1
     img["logsetup"] = 0
     img["dma"] = 0
+    img["allocsite"] = 0
     img["memtop"] = 0
     img["srctop"] = 0
     return img
